@@ -481,6 +481,18 @@ pub fn encseq_alphabet() -> Vec<Event> {
     v.push(Event::Process(set_eid_req(0x10, SEQ_OWN, 0, 0x56)));
     // the peer at 0x34 confirms the EID we submitted with ReqSetEid{eid: 0x56}
     v.push(Event::Process(forge_response(0x34, SEQ_OWN, 0, 0x01, 0, &[0x00, 0x56, 0x00])));
+    // receive-side traffic between encoder calls: a probe, a decode-only call, answered requests
+    // (one with a long response), a corrupted packet, a UUID store
+    let geid = forge_request(0x10, SEQ_OWN, 0, false, 0x02, &[]);
+    v.push(Event::GetLength(geid[..3].to_vec()));
+    v.push(Event::Decode(geid.clone()));
+    v.push(Event::Process(geid.clone()));
+    v.push(Event::Process(forge_request(0x10, SEQ_OWN, 0, false, 0x03, &[])));
+    let mut bad = geid;
+    let n = bad.len();
+    bad[n - 1] ^= 0x10;
+    v.push(Event::Process(bad));
+    v.push(Event::SetUuid(U1));
     v
 }
 
@@ -528,7 +540,7 @@ pub fn sweep_encseq(run: &mut Run, prop: &'static str) {
     run.bound("encoder_sequence_depth", depth as u64);
     run.bound("encoder_sequence_alphabet", a);
     run.sweep(
-        &format!("ENCSEQ: every sequence of length <= {} over {} events ({} encoder calls x 3 destinations, 5 state events) ending in an encoder call, x fresh/reused output buffer", depth, a, nenc / 3),
+        &format!("ENCSEQ: every sequence of length <= {} over {} events ({} encoder calls x 3 destinations, 11 state/receive events) ending in an encoder call, x fresh/reused output buffer", depth, a, nenc / 3),
         total * 2,
         |acc, k| {
             let reuse = k % 2 == 1;
